@@ -212,7 +212,50 @@ class Evaluator:
             return self.env["der(%s)" % a[1]]
         if a[0] == "idx":
             return self.index(self.env["der(%s)" % a[1]], a[2])
-        raise Undefined("der of expression not in reference")
+        return self.dt(a)[1]
+
+    def dt(self, e):
+        """(value, time derivative) of an arithmetic expression; variables without a 'der(v)' entry
+        in the environment (parameters, constants) have derivative 0."""
+        t = e[0]
+        if t == "num":
+            return float(e[1]), 0.0
+        if t == "var":
+            return self.env[e[1]], self.env.get("der(%s)" % e[1], 0.0)
+        if t == "idx":
+            d = self.env.get("der(%s)" % e[1])
+            return self.index(self.env[e[1]], e[2]), (0.0 if d is None else self.index(d, e[2]))
+        if t == "neg":
+            v, d = self.dt(e[1])
+            return -v, -d
+        if t == "pos":
+            return self.dt(e[1])
+        if t == "bin" and e[1] in ("+", "-", "*", "/", ".+", ".-", ".*", "./"):
+            (a, da), (b, db) = self.dt(e[2]), self.dt(e[3])
+            op = e[1].lstrip(".")
+            if op == "+":
+                return a + b, da + db
+            if op == "-":
+                return a - b, da - db
+            if op == "*":
+                return a * b, da * b + a * db
+            if abs(b) < self.edge:
+                raise Undefined("near-zero divisor")
+            return a / b, (da * b - a * db) / (b * b)
+        if t == "bin" and e[1] in ("^", ".^") and e[3][0] == "num":
+            a, da = self.dt(e[2])
+            n = float(e[3][1])
+            if a < self.edge and n != int(n):
+                raise Undefined("negative base, non-integer exponent")
+            return a ** n, n * a ** (n - 1) * da
+        if t == "call" and e[1] in ("sin", "cos", "exp") and len(e[2]) == 1:
+            a, da = self.dt(e[2][0])
+            if e[1] == "sin":
+                return math.sin(a), math.cos(a) * da
+            if e[1] == "cos":
+                return math.cos(a), -math.sin(a) * da
+            return math.exp(a), math.exp(a) * da
+        raise Undefined("der of this expression form is not in the reference")
 
     def subval(self, s, n):
         if s[0] == "colon":
@@ -258,8 +301,9 @@ class Evaluator:
             return a * b if op == "and" else a + b
         if op in REL:
             fa, fb = float(np.asarray(a, dtype=float)), float(np.asarray(b, dtype=float))
-            if abs(fa - fb) < self.tie * max(1.0, abs(fa), abs(fb)) and not (
-                    fa == fb and float(fa).is_integer()):
+            # an exact tie is decided identically by any IEEE evaluation of the same operands;
+            # a near tie could go either way under re-association -> discard the point
+            if fa != fb and abs(fa - fb) < self.tie * max(1.0, abs(fa), abs(fb)):
                 raise Undefined("relation tie")
             r = {"<": fa < fb, "<=": fa <= fb, ">": fa > fb, ">=": fa >= fb,
                  "==": fa == fb, "<>": fa != fb}[op]
@@ -328,7 +372,7 @@ class Evaluator:
             if f in ("min", "max"):
                 if len(args) == 2:
                     fa, fb = np.asarray(args[0], float), np.asarray(args[1], float)
-                    if np.any(np.abs(fa - fb) < self.tie):
+                    if np.any((fa != fb) & (np.abs(fa - fb) < self.tie)):
                         raise Undefined("min/max tie")
                     return (np.minimum if f == "min" else np.maximum)(fa, fb)
                 raise Undefined("min/max arity")
